@@ -21,14 +21,18 @@ mod imp {
     // ------------------------------------------------------------------ running steps
     pub struct StepOut { pub class: String, pub output: String, pub value: String, pub detail: String, pub frames: usize }
 
-    pub fn host_call(vm: &mut VM, name: &str, arg: i64, cached: bool) -> StepOut {
+    pub fn host_call(vm: &mut VM, name: &str, arg: i64, cached: bool) -> StepOut { host_call_n(vm, name, arg, cached, false) }
+    /// extra: pass one argument too many (the callee's arity check must reject the call and change nothing)
+    pub fn host_call_n(vm: &mut VM, name: &str, arg: i64, cached: bool, extra: bool) -> StepOut {
         use aelys_runtime::verif;
         verif::sink_install();
         verif::budget_set(2_000_000);
         let r = guarded(std::panic::AssertUnwindSafe(|| {
             let v = if cached {
                 let f = aelys_driver::get_function(vm, name)?;
-                f.call(vm, &[Value::int(arg)])?
+                if extra { f.call(vm, &[Value::int(arg), Value::int(1)])? } else { f.call(vm, &[Value::int(arg)])? }
+            } else if extra {
+                aelys_driver::call_function(vm, name, &[Value::int(arg), Value::int(1)])?
             } else {
                 aelys_driver::call_function(vm, name, &[Value::int(arg)])?
             };
@@ -50,8 +54,18 @@ mod imp {
     pub enum Val { Int(i64), Str(String) }
     impl Val { pub fn show(&self) -> String { match self { Val::Int(n) => n.to_string(), Val::Str(s) => s.clone() } } }
 
+    /// every call of the generated function NAME passes this argument (the session model's function bodies are
+    /// closed terms: Model/Session.v has no integer parameters)
+    pub fn arg_of(name: &str) -> i64 {
+        let n: i64 = name.chars().filter(|c| c.is_ascii_digit()).collect::<String>().parse().unwrap_or(0);
+        (n * 7 + 3) % 10
+    }
     #[derive(Clone, Debug, PartialEq)]
-    pub enum FnKind { AddK(i64), ReadG(String), BumpG(String), Boom, CallF(String, i64), Apply }
+    pub enum FnKind { AddK(i64), ReadG(String), BumpG(String), Boom, CallF(String, i64), Apply,
+                      /// mutates a global and ends without `return` (the call's value is null)
+                      Bump0(String),
+                      /// calls itself until the frame limit is reached
+                      Loop }
     #[derive(Clone, Debug, PartialEq)]
     pub struct FnDef { pub tag: String, pub kind: FnKind }
 
@@ -66,13 +80,13 @@ mod imp {
         PrintApply { a: String, f: String, arg: i64 },   // println(a(f, arg)): a takes a function value and has no globals
         PrintLit { text: String },
         Raw { text: String },                 // compile-time rejected text
-        Needs { text: String },               // an import statement (accepted, prints nothing)
-        PrintExpr { text: String, value: i64 }, // println(<use of an imported name>), prints value
+        Needs { text: String, module: Option<(usize, u8, String)> },   // an import statement; user modules: (index, form, alias)
+        PrintExpr { text: String, value: i64, global: Option<String>, is_fn: bool }, // println(<use of an imported name>), prints value
     }
     #[derive(Clone, Debug, PartialEq)]
     pub enum Step {
         Input { stmts: Vec<Stmt>, expect: Expect },
-        Host { f: String, arg: i64, cached: bool },
+        Host { f: String, arg: i64, cached: bool, extra: bool },
     }
     #[derive(Clone, Copy, Debug, PartialEq)]
     pub enum Expect { Ok, CompileError, RuntimeError }
@@ -88,15 +102,17 @@ mod imp {
                 FnKind::ReadG(g) => format!("fn {}(x) {{ println(\"{}\"); return {} + x }}", name, def.tag, g),
                 FnKind::BumpG(g) => format!("fn {}(x) {{ println(\"{}\"); {} = {} + x; return {} }}", name, def.tag, g, g, g),
                 FnKind::Boom => format!("fn {}(x) {{ println(\"{}\"); return x / zero }}", name, def.tag),
-                FnKind::CallF(t, k) => format!("fn {}(x) {{ println(\"{}\"); return {}(x) + {} }}", name, def.tag, t, k),
+                FnKind::CallF(t, k) => format!("fn {}(x) {{ println(\"{}\"); return {}({}) + {} }}", name, def.tag, t, arg_of(t), k),
                 FnKind::Apply => format!("fn {}(cb, x) {{ return cb(x) }}", name),
+                FnKind::Bump0(g) => format!("fn {}(x) {{ println(\"{}\"); {} = {} + x; let q = 0 }}", name, def.tag, g, g),
+                FnKind::Loop => format!("fn {}(x) {{ return {}({}) + 1 }}", name, name, arg_of(name)),
             },
             Stmt::PrintVar { name } => format!("println({})", name),
             Stmt::PrintCall { f, arg } => format!("println({}({}))", f, arg),
             Stmt::PrintApply { a, f, arg } => format!("println({}({}, {}))", a, f, arg),
             Stmt::PrintLit { text } => format!("println(\"{}\")", text),
             Stmt::Raw { text } => text.clone(),
-            Stmt::Needs { text } => text.clone(),
+            Stmt::Needs { text, .. } => text.clone(),
             Stmt::PrintExpr { text, .. } => format!("println({})", text),
         }
     }
@@ -108,17 +124,21 @@ mod imp {
     impl Oracle {
         pub fn new() -> Self { Oracle { vars: HashMap::new(), fns: HashMap::new(), imported: HashMap::new() } }
         /// Err(()) = runtime failure (division by zero)
-        fn call(&mut self, f: &str, arg: i64, out: &mut String) -> Result<i64, ()> {
+        /// Ok(None): the call's value is null
+        fn call(&mut self, f: &str, arg: i64, out: &mut String) -> Result<Option<i64>, ()> {
             let d = self.fns.get(f).cloned().ok_or(())?;
-            out.push_str(&d.tag); out.push('\n');
+            if !d.tag.is_empty() { out.push_str(&d.tag); out.push('\n'); }
             match d.kind {
-                FnKind::AddK(k) => Ok(arg + k),
-                FnKind::ReadG(g) => match self.vars.get(&g) { Some((Val::Int(n), _)) => Ok(n + arg), _ => Err(()) },
+                FnKind::AddK(k) => Ok(Some(arg + k)),
+                FnKind::ReadG(g) => match self.vars.get(&g) { Some((Val::Int(n), _)) => Ok(Some(n + arg)), _ => Err(()) },
                 FnKind::BumpG(g) => match self.vars.get(&g).cloned() {
-                    Some((Val::Int(n), m)) => { self.vars.insert(g, (Val::Int(n + arg), m)); Ok(n + arg) }
+                    Some((Val::Int(n), m)) => { self.vars.insert(g, (Val::Int(n + arg), m)); Ok(Some(n + arg)) }
                     _ => Err(()) },
-                FnKind::Boom => Err(()),
-                FnKind::CallF(t, k) => self.call(&t, arg, out).map(|v| v + k),
+                FnKind::Bump0(g) => match self.vars.get(&g).cloned() {
+                    Some((Val::Int(n), m)) => { self.vars.insert(g, (Val::Int(n + arg), m)); Ok(None) }
+                    _ => Err(()) },
+                FnKind::Boom | FnKind::Loop => Err(()),
+                FnKind::CallF(t, k) => match self.call(&t, arg_of(&t), out)? { Some(v) => Ok(Some(v + k)), None => Err(()) },
                 FnKind::Apply => Err(()),
             }
         }
@@ -134,7 +154,7 @@ mod imp {
                     Stmt::PrintVar { name } => { out.push_str(&self.vars[name].0.show()); out.push('\n'); }
                     Stmt::PrintLit { text } => { out.push_str(text); out.push('\n'); }
                     Stmt::PrintCall { f, arg } | Stmt::PrintApply { f, arg, .. } => match self.call(f, *arg, &mut out) {
-                        Ok(v) => { out.push_str(&v.to_string()); out.push('\n'); }
+                        Ok(v) => { out.push_str(&v.map(|x| x.to_string()).unwrap_or("null".into())); out.push('\n'); }
                         Err(()) => return OStep { class: "runtime-error", output: out, value: String::new() },
                     },
                     Stmt::Needs { .. } => {}
@@ -149,7 +169,7 @@ mod imp {
             if !self.fns.contains_key(f) { return OStep { class: "runtime-error", output: String::new(), value: String::new() }; }
             let mut out = String::new();
             match self.call(f, arg, &mut out) {
-                Ok(v) => OStep { class: "ok", output: out, value: v.to_string() },
+                Ok(v) => OStep { class: "ok", output: out, value: v.map(|x| x.to_string()).unwrap_or("null".into()) },
                 Err(()) => OStep { class: "runtime-error", output: out, value: String::new() },
             }
         }
@@ -159,7 +179,7 @@ mod imp {
     /// a way an imported name can be written in a later input, what it evaluates to, and (functions) the
     /// global name / multiplier for a host call
     #[derive(Clone, Debug)]
-    pub struct Imp { pub text: String, pub value: i64, pub host: Option<(String, i64)> }
+    pub struct Imp { pub text: String, pub value: i64, pub host: Option<(String, i64)>, pub global: Option<String> }
     pub struct ModDef { pub name: String, pub fns: Vec<(String, i64)>, pub consts: Vec<(String, i64)> }
     pub struct Gen { pub rng: Rng, pub n: u64, pub o: Oracle, pub boomed_host: bool,
                      pub modules: Vec<ModDef>, pub forms_left: Vec<u8>, pub pending: Vec<Imp>, pub usable: Vec<Imp>, pub rejected_probe: Vec<Imp> }
@@ -185,49 +205,61 @@ mod imp {
         }
         /// an import statement as its own input; every spelling it makes available must be used by a LATER input
         /// the text of an import statement of the given form and the spellings it makes available
-        fn make_import(&mut self, form: u8) -> (String, Vec<Imp>) {
+        fn make_import(&mut self, form: u8) -> (String, Vec<Imp>, Option<(usize, u8, String)>) {
             let mi = self.rng.below(self.modules.len() as u64) as usize;
             let (mname, fns, consts) = { let m = &self.modules[mi]; (m.name.clone(), m.fns.clone(), m.consts.clone()) };
             let arg = self.rng.range_i64(1, 9);
             let mut new: Vec<Imp> = Vec::new();
+            let mut module = None;
+            let std = |t: &str, v: i64| Imp { text: t.to_string(), value: v, host: None, global: None };
             let text = match form {
-                0 => { for (f, k) in &fns { new.push(Imp { text: format!("{}.{}({})", mname, f, arg), value: arg * k, host: Some((format!("{}::{}", mname, f), *k)) }); }
-                       for (c, v) in &consts { new.push(Imp { text: format!("{}.{}", mname, c), value: *v, host: None }); }
+                0 => { for (f, k) in &fns { new.push(Imp { text: format!("{}.{}({})", mname, f, arg), value: arg * k, host: Some((format!("{}::{}", mname, f), *k)), global: Some(format!("{}::{}", mname, f)) }); }
+                       for (c, v) in &consts { new.push(Imp { text: format!("{}.{}", mname, c), value: *v, host: None, global: Some(format!("{}::{}", mname, c)) }); }
+                       module = Some((mi, 0, String::new()));
                        format!("needs {}", mname) }
                 1 => { let al = self.fresh("q");
-                       for (f, k) in &fns { new.push(Imp { text: format!("{}.{}({})", al, f, arg), value: arg * k, host: Some((format!("{}::{}", al, f), *k)) }); }
-                       for (c, v) in &consts { new.push(Imp { text: format!("{}.{}", al, c), value: *v, host: None }); }
+                       for (f, k) in &fns { new.push(Imp { text: format!("{}.{}({})", al, f, arg), value: arg * k, host: Some((format!("{}::{}", al, f), *k)), global: Some(format!("{}::{}", al, f)) }); }
+                       for (c, v) in &consts { new.push(Imp { text: format!("{}.{}", al, c), value: *v, host: None, global: Some(format!("{}::{}", al, c)) }); }
+                       module = Some((mi, 1, al.clone()));
                        format!("needs {} as {}", mname, al) }
                 2 => { let (f, k) = fns[self.rng.below(fns.len() as u64) as usize].clone(); let (c, v) = consts[0].clone();
-                       new.push(Imp { text: format!("{}({})", f, arg), value: arg * k, host: Some((f.clone(), k)) });
-                       new.push(Imp { text: c.clone(), value: v, host: None });
+                       new.push(Imp { text: format!("{}({})", f, arg), value: arg * k, host: Some((f.clone(), k)), global: Some(f.clone()) });
+                       new.push(Imp { text: c.clone(), value: v, host: None, global: Some(c.clone()) });
+                       module = Some((mi, 2, f.clone()));
                        format!("needs {}, {} from {}", f, c, mname) }
-                3 => { new.push(Imp { text: "math.floor(2.5)".into(), value: 2, host: None }); new.push(Imp { text: "math.abs(-3)".into(), value: 3, host: None });
+                3 => { new.push(std("math.floor(2.5)", 2)); new.push(std("math.abs(-3)", 3));
                        "needs std.math".to_string() }
                 4 => { let al = self.fresh("mq");
-                       new.push(Imp { text: format!("{}.floor(2.5)", al), value: 2, host: None }); new.push(Imp { text: format!("{}.abs(-3)", al), value: 3, host: None });
+                       new.push(std(&format!("{}.floor(2.5)", al), 2)); new.push(std(&format!("{}.abs(-3)", al), 3));
                        format!("needs std.math as {}", al) }
-                _ => { new.push(Imp { text: "floor(7.5)".into(), value: 7, host: None }); new.push(Imp { text: "abs(-4)".into(), value: 4, host: None });
+                _ => { new.push(std("floor(7.5)", 7)); new.push(std("abs(-4)", 4));
                        "needs floor, abs from std.math".to_string() }
             };
-            (text, new)
+            (text, new, module)
         }
         /// an import statement as its own input; every spelling it makes available must be used by a LATER input
         fn import_step(&mut self) -> Option<Step> {
             let form = self.forms_left.pop()?;
-            let (text, new) = self.make_import(form);
+            let (text, new, module) = self.make_import(form);
             for i in &new { if let Some((h, k)) = &i.host { self.o.imported.insert(h.clone(), *k); } }
             self.pending.extend(new.iter().cloned());
             self.usable.extend(new);
-            Some(Step::Input { stmts: vec![Stmt::Needs { text }], expect: Expect::Ok })
+            // the importing input may also define names of its own (their mutability must be recorded like any other's)
+            let mut stmts = vec![Stmt::Needs { text, module }];
+            for _ in 0..self.rng.below(3) {
+                let name = self.fresh("g");
+                stmts.push(Stmt::Let { name, mutable: self.rng.chance(1, 2), val: Val::Int(self.rng.range_i64(-50, 50)) });
+            }
+            Some(Step::Input { stmts, expect: Expect::Ok })
         }
         /// a later input (or host call) that uses imported spellings
         fn use_step(&mut self) -> Step {
             let imp = if !self.pending.is_empty() { let i = self.rng.below(self.pending.len() as u64) as usize; self.pending.remove(i) }
                       else { let i = self.rng.below(self.usable.len() as u64) as usize; self.usable[i].clone() };
-            if let Some((h, _)) = &imp.host { if self.rng.chance(1, 3) { return Step::Host { f: h.clone(), arg: self.rng.range_i64(0, 9), cached: self.rng.chance(1, 3) }; } }
-            let mut stmts = vec![Stmt::PrintExpr { text: imp.text.clone(), value: imp.value }];
-            if !self.usable.is_empty() && self.rng.chance(1, 2) { let i = self.rng.below(self.usable.len() as u64) as usize; let u = self.usable[i].clone(); stmts.push(Stmt::PrintExpr { text: u.text, value: u.value }); }
+            if let Some((h, _)) = &imp.host { if self.rng.chance(1, 3) { return Step::Host { f: h.clone(), arg: self.rng.range_i64(0, 9), cached: self.rng.chance(1, 3), extra: self.rng.chance(1, 8) }; } }
+            let pe = |i: &Imp| Stmt::PrintExpr { text: i.text.clone(), value: i.value, global: i.global.clone(), is_fn: i.host.is_some() };
+            let mut stmts = vec![pe(&imp)];
+            if !self.usable.is_empty() && self.rng.chance(1, 2) { let i = self.rng.below(self.usable.len() as u64) as usize; let u = self.usable[i].clone(); stmts.push(pe(&u)); }
             let av = self.all_vars();
             if !av.is_empty() && self.rng.chance(1, 2) { let v = self.pick(&av); stmts.insert(0, Stmt::PrintVar { name: v }); }
             Step::Input { stmts, expect: Expect::Ok }
@@ -245,7 +277,7 @@ mod imp {
         }
         /// does a call of this function fail (division by zero), directly or in the function it calls?
         pub fn fails(&self, d: &FnDef) -> bool {
-            match &d.kind { FnKind::Boom => true, FnKind::CallF(t, _) => self.o.fns.get(t).map(|x| self.fails(x)).unwrap_or(true), _ => false }
+            match &d.kind { FnKind::Boom | FnKind::Loop => true, FnKind::CallF(t, _) => self.o.fns.get(t).map(|x| self.fails(x)).unwrap_or(true), _ => false }
         }
         fn pick(&mut self, v: &[String]) -> String { v[self.rng.below(v.len() as u64) as usize].clone() }
         fn good_stmt(&mut self, defined_here: &mut HashSet<String>, assigned_here: &mut HashSet<String>) -> Option<Stmt> {
@@ -270,7 +302,21 @@ mod imp {
                     defined_here.insert(name.clone());
                     let tag = self.fresh("T");
                     let t = self.pick(&callees);
-                    return Some(Stmt::Def { name, def: FnDef { tag, kind: FnKind::CallF(t, self.rng.range_i64(1, 9)) } });
+                    return Some(Stmt::Def { name, def: FnDef { tag, kind: FnKind::CallF(t, 0) } });
+                }
+                // a function without `return` that mutates a global (names b<N>: never redefined, never a callee of c<N>)
+                if !mv.is_empty() && self.rng.chance(1, 6) {
+                    let name = self.fresh("b");
+                    defined_here.insert(name.clone());
+                    let tag = self.fresh("T");
+                    let gname = self.pick(&mv); assigned_here.insert(gname.clone());
+                    return Some(Stmt::Def { name, def: FnDef { tag, kind: FnKind::Bump0(gname) } });
+                }
+                // a function that recurses until the frame limit (names r<N>)
+                if self.rng.chance(1, 14) {
+                    let name = self.fresh("r");
+                    defined_here.insert(name.clone());
+                    return Some(Stmt::Def { name, def: FnDef { tag: String::new(), kind: FnKind::Loop } });
                 }
                 let fnames: Vec<String> = fs.iter().filter(|n| n.starts_with('f')).cloned().collect();
                 let name = if !fnames.is_empty() && self.rng.chance(1, 3) { self.pick(&fnames) } else { self.fresh("f") };
@@ -291,12 +337,12 @@ mod imp {
                     defined_here.insert(name.clone());
                     Some(Stmt::Def { name, def: FnDef { tag: String::new(), kind: FnKind::Apply } })
                 } else if !fs.is_empty() {
-                    Some(Stmt::PrintApply { a: self.pick(&appliers), f: self.pick(&fs), arg: self.rng.range_i64(0, 9) })
+                    let f = self.pick(&fs); let arg = arg_of(&f); Some(Stmt::PrintApply { a: self.pick(&appliers), f, arg })
                 } else { None }
             } else if r < 62 && !av.is_empty() {
                 Some(Stmt::PrintVar { name: self.pick(&av) })
             } else if r < 92 && !fs.is_empty() {
-                Some(Stmt::PrintCall { f: self.pick(&fs), arg: self.rng.range_i64(0, 9) })
+                let f = self.pick(&fs); let arg = arg_of(&f); Some(Stmt::PrintCall { f, arg })
             } else {
                 Some(Stmt::PrintLit { text: self.fresh("p") })
             }
@@ -306,7 +352,7 @@ mod imp {
             let vars = self.o.vars.clone();
             self.o.fns.retain(|_, d| match &d.kind {
                 FnKind::ReadG(g) => matches!(vars.get(g), Some((Val::Int(_), true))),
-                FnKind::BumpG(g) => matches!(vars.get(g), Some((Val::Int(_), true))),
+                FnKind::BumpG(g) | FnKind::Bump0(g) => matches!(vars.get(g), Some((Val::Int(_), true))),
                 _ => true });
             let names: HashSet<String> = self.o.fns.keys().cloned().collect();
             self.o.fns.retain(|_, d| match &d.kind { FnKind::CallF(t, _) => names.contains(t), _ => true });
@@ -330,9 +376,9 @@ mod imp {
                 // host call; a call into a failing function only when asked for (it leaves frames behind)
                 let booms: Vec<String> = fs_all.iter().filter(|f| self.fails(&self.o.fns[*f])).cloned().collect();
                 let f = if !booms.is_empty() && self.rng.chance(1, 3) { self.pick(&booms) } else if !fs.is_empty() { self.pick(&fs) } else { return self.step(false, false) };
-                return Step::Host { f, arg: self.rng.range_i64(0, 9), cached: self.rng.chance(1, 3) };
+                let arg = arg_of(&f); return Step::Host { f, arg, cached: self.rng.chance(1, 3), extra: self.rng.chance(1, 8) };
             }
-            if r < 17 { return Step::Host { f: self.fresh("nosuch"), arg: 1, cached: self.rng.chance(1, 2) }; }
+            if r < 17 { return Step::Host { f: self.fresh("nosuch"), arg: 1, cached: self.rng.chance(1, 2), extra: false }; }
             let mut defined_here = HashSet::new();
             let mut assigned_here = HashSet::new();
             let n = 1 + self.rng.below(4) as usize;
@@ -363,8 +409,10 @@ mod imp {
                 // (not with a syntax error: the parser rejects the input before anything is loaded -- also fine)
                 if self.rng.chance(1, 3) {
                     let form = if self.rng.chance(1, 2) { 1 } else { 4 };
-                    let (text, new) = self.make_import(form);
-                    stmts.insert(0, Stmt::Needs { text });
+                    let (text, new, module) = self.make_import(form);
+                    // (after a syntax error nothing is loaded: the parser rejects the input first)
+                    let syntax = matches!(&stmts[pos], Stmt::Raw { text } if text == "let = 3" || text == "println(1 +)");
+                    stmts.insert(0, Stmt::Needs { text, module: if syntax { None } else { module } });
                     self.rejected_probe.push(new[0].clone());
                 }
                 return Step::Input { stmts, expect: Expect::CompileError };
@@ -377,10 +425,10 @@ mod imp {
                 if self.rng.chance(1, 2) { st.push(Stmt::Let { name: self.fresh("junk"), mutable: true, val: Val::Int(5) }); }
                 if self.rng.chance(1, 2) && !fs.is_empty() {
                     let pure: Vec<String> = fs.iter().filter(|f| matches!(self.o.fns[*f].kind, FnKind::AddK(_) | FnKind::ReadG(_))).cloned().collect();
-                    if !pure.is_empty() { st.push(Stmt::PrintCall { f: self.pick(&pure), arg: 2 }); }
+                    if !pure.is_empty() { let f = self.pick(&pure); let arg = arg_of(&f); st.push(Stmt::PrintCall { f, arg }); }
                 }
                 let booms: Vec<String> = fs_all.iter().filter(|f| self.fails(&self.o.fns[*f])).cloned().collect();
-                if !booms.is_empty() && self.rng.chance(1, 2) { st.push(Stmt::PrintCall { f: self.pick(&booms), arg: 3 }); }
+                if !booms.is_empty() && self.rng.chance(1, 2) { let f = self.pick(&booms); let arg = arg_of(&f); st.push(Stmt::PrintCall { f, arg }); }
                 else { st.push(Stmt::Raw { text: "println(1 / zero)".into() }); }
                 st.push(Stmt::PrintLit { text: self.fresh("unreached") });
                 return Step::Input { stmts: st, expect: Expect::RuntimeError };
@@ -434,7 +482,7 @@ mod imp {
         if let Ok(n) = l.parse::<i64>() { return Some(n); }
         let num = |p: &str| l.strip_prefix(p).and_then(|x| x.parse::<i64>().ok());
         if let Some(n) = num("s") { return Some(1_000_000 + n); }
-        if num("T").is_some() || num("p").is_some() || num("unreached").is_some() { return None; }
+        if num("T").is_some() || num("p").is_some() || num("unreached").is_some() || l == "null" { return None; }
         Some(999_999_999)
     }
     pub fn obs_of_output(out: &str) -> Vec<i64> { out.lines().filter_map(|l| code_of_line(l.trim_end())).collect() }
@@ -465,9 +513,11 @@ mod imp {
             FnKind::AddK(k) => { ops.push("OReturn".into()); ops.push(format!("OPrintConst {}", zc(arg + k + add))); (ops, false) }
             FnKind::ReadG(gv) => { ops.push(format!("OPrintIdx {} {}", fidx(gv, problems), zc(arg + add))); ops.push("OReturn".into()); (ops, false) }
             FnKind::BumpG(gv) => { let i = fidx(gv, problems); ops.push(format!("OAddIdx {} {}", i, zc(arg))); ops.push(format!("OPrintIdx {} {}", i, zc(add))); ops.push("OReturn".into()); (ops, false) }
-            FnKind::Boom => { ops.push("OFail".into()); (ops, true) }
+            FnKind::Bump0(gv) => { let i = fidx(gv, problems); ops.push(format!("OAddIdx {} {}", i, zc(arg))); ops.push("OReturn".into());
+                                   if host.is_some() { ops.push("OPrintConst 999999997".into()); } (ops, false) }
+            FnKind::Boom | FnKind::Loop => { ops.push("OFail".into()); (ops, true) }
             FnKind::CallF(t, k) => {
-                let (inner, failed) = emit_call(t, arg, add + k, fns, fn_lay, names, problems, None);
+                let _ = arg; let (inner, failed) = emit_call(t, arg_of(t), add + k, fns, fn_lay, names, problems, None);
                 ops.extend(inner);
                 if !failed { ops.push("OReturn".into()); }
                 (ops, failed)
@@ -476,7 +526,57 @@ mod imp {
         }
     }
 
-    pub struct CaseOut { pub query: String, pub observed: String, pub real_steps: String, pub oracle_steps: String, pub source: String,
+    // ------------------------------------------------------------------ the session as terms of Model/Session.v
+    /// code : list (N * fdef), steps : list step, and the observations the real session must show
+    pub struct SessX { pub code: Vec<String>, pub steps: Vec<String>, pub expect: Vec<String>, pub ok: bool, pub why: String, pub next_fid: u64,
+                       pub by_id: HashMap<usize, Vec<String>>, pub by_names: HashMap<Vec<String>, usize> }
+    pub fn line_code(l: &str) -> i64 {
+        if let Ok(n) = l.parse::<i64>() { return n; }
+        let num = |p: &str| l.strip_prefix(p).and_then(|x| x.parse::<i64>().ok());
+        if let Some(n) = num("s") { return 1_000_000 + n; }
+        if let Some(n) = num("T") { return 3_000_000 + n; }
+        if let Some(n) = num("p") { return 4_000_000 + n; }
+        if let Some(n) = num("unreached") { return 5_000_000 + n; }
+        if l == "null" { return 6_000_000; }
+        999_999_999
+    }
+    impl SessX {
+        pub fn new() -> Self { SessX { code: vec![], steps: vec![], expect: vec![], ok: true, why: String::new(), next_fid: 1, by_id: HashMap::new(), by_names: HashMap::new() } }
+        pub fn fail(&mut self, why: String) { if self.ok { self.ok = false; self.why = why; } }
+        /// a layout term; also the contract the model relies on: a layout id names one list of names and vice versa
+        /// (GlobalLayout::new interns), checked on every layout that is used
+        pub fn layout(&mut self, l: &Lay, names: &mut Names, problems: &mut Vec<String>) -> String {
+            if let Some(prev) = self.by_id.get(&l.id) { if *prev != l.names { problems.push(format!("layout id {} names two layouts", l.id)); } }
+            if let Some(prev) = self.by_names.get(&l.names) { if *prev != l.id { problems.push(format!("one list of names has two layout ids ({} and {})", prev, l.id)); } }
+            if l.names.is_empty() != (l.id == 0) { problems.push(format!("layout id {} / empty names mismatch", l.id)); }
+            self.by_id.insert(l.id, l.names.clone()); self.by_names.insert(l.names.clone(), l.id);
+            let ns: Vec<String> = l.names.iter().map(|n| if n.is_empty() { "None".to_string() } else { format!("Some {}%N", names.id(n)) }).collect();
+            format!("[{}]", ns.join("; "))
+        }
+        pub fn add_fn(&mut self, lay: String, arity: u32, body: Vec<String>) -> u64 {
+            let fid = self.next_fid; self.next_fid += 1;
+            self.code.push(format!("({}%N, mkF {} {}%N [{}])", fid, lay, arity, body.join("; ")));
+            fid
+        }
+    }
+    /// body of a generated function as instructions of the session model (the result is printed by the function that
+    /// computes it: nothing is printed between its return and the caller's println)
+    pub fn fn_body(name: &str, def: &FnDef, names: &mut Names) -> (u32, Vec<String>) {
+        let a = arg_of(name);
+        let tag = format!("IOut {}", zc(line_code(&def.tag)));
+        match &def.kind {
+            FnKind::AddK(k) => (1, vec![tag, format!("IOut {}", zc(a + k))]),
+            FnKind::ReadG(g) => (1, vec![tag, format!("IPrint {}%N {}", names.id(g), zc(a))]),
+            FnKind::BumpG(g) => (1, vec![tag, format!("IAdd {}%N {}", names.id(g), zc(a)), format!("IPrint {}%N 0", names.id(g))]),
+            FnKind::Bump0(g) => (1, vec![tag, format!("IAdd {}%N {}", names.id(g), zc(a)), "IOut 6000000".to_string()]),
+            FnKind::Loop => (1, vec![format!("ICall (CGlobal {}%N) 1%N None", names.id(name))]),
+            FnKind::Boom => (1, vec![tag, "IFail".to_string()]),
+            FnKind::CallF(t, _) => (1, vec![tag, format!("ICall (CGlobal {}%N) 1%N None", names.id(t))]),
+            FnKind::Apply => (2, vec!["ICall CArg 1%N None".to_string()]),
+        }
+    }
+
+    pub struct CaseOut { pub s_code: String, pub s_steps: String, pub s_expect: String, pub s_ok: bool, pub s_why: String, pub query: String, pub observed: String, pub real_steps: String, pub oracle_steps: String, pub source: String,
                          pub problems: Vec<String>, pub kinds: String, pub stale_entry: bool }
 
     pub fn run_case(seed: u64, opt: u32) -> CaseOut {
@@ -490,6 +590,7 @@ mod imp {
         let nsteps = 5 + g.rng.below(10) as usize;
         let mut kinds: HashMap<&'static str, usize> = HashMap::new();
         let mut stale_entry = false;
+        let mut sx = SessX::new();
         // the session's working directory: `needs <module>` in a REPL input is resolved relative to the current
         // directory (driver/src/api/repl.rs: cwd.join("repl.aelys"))
         let dir = std::env::temp_dir().join(format!("hx_repl_{}_{}", std::process::id(), seed));
@@ -514,17 +615,54 @@ mod imp {
                     g.prune_dangling();
                     srcs.push(src);
                     ops.push("OClearFrames".into());
+                    // the unnamed function objects that are new: the top-level functions of the modules this input loaded
+                    // and of the input's own unit
+                    let new_tops: Vec<(usize, usize)> = live_functions(&vm).into_iter().filter(|(i, a, n)| (n.is_none() || g.modules.iter().any(|m| Some(&m.name) == n.as_ref())) && !seen_tops.contains(&(*i, *a))).map(|(i, a, _)| (i, a)).collect();
+                    for c in &new_tops { seen_tops.insert(*c); }
+                    let mut tops: Vec<Function> = new_tops.iter().filter_map(|(i, _)| function_at(&vm, *i)).collect();
+                    // session model: the module units (recognised by their nested functions) with their by-name export registration
+                    let mut s_imports: Vec<String> = Vec::new();
+                    for st in stmts {
+                        if let Stmt::Needs { module: Some((mi, form, alias)), .. } = st {
+                            let m = &g.modules[*mi];
+                            let first = m.fns[0].0.clone();
+                            match tops.iter().position(|f| f.nested_functions.iter().any(|n| n.name.as_deref() == Some(first.as_str()))) {
+                                Some(p) => {
+                                    let mt = tops.remove(p);
+                                    let lay = sx.layout(&lay_of(&mt), &mut names, &mut problems);
+                                    let mut body: Vec<String> = Vec::new();
+                                    for (f, _) in &m.fns {
+                                        match mt.nested_functions.iter().find(|n| n.name.as_deref() == Some(f.as_str())) {
+                                            Some(nf) => { let l = sx.layout(&lay_of(nf), &mut names, &mut problems); let fid = sx.add_fn(l, 1, vec![]);
+                                                          body.push(format!("IDef {}%N {}%N", names.id(f), fid)); }
+                                            None => sx.fail(format!("module function {} not found", f)),
+                                        }
+                                    }
+                                    for (c, v) in &m.consts { body.push(format!("ISet {}%N (VInt {})", names.id(c), zc(*v))); }
+                                    let all: Vec<String> = m.fns.iter().map(|x| x.0.clone()).chain(m.consts.iter().map(|x| x.0.clone())).collect();
+                                    let mut ex: Vec<(String, String)> = Vec::new();
+                                    match form {
+                                        0 => for n in &all { ex.push((format!("{}::{}", m.name, n), n.clone())); ex.push((n.clone(), n.clone())); },
+                                        1 => for n in &all { ex.push((format!("{}::{}", alias, n), n.clone())); },
+                                        _ => { ex.push((alias.clone(), alias.clone())); ex.push((m.consts[0].0.clone(), m.consts[0].0.clone())); }
+                                    }
+                                    let exs: Vec<String> = ex.iter().map(|(a, b)| format!("({}%N, {}%N)", names.id(a), names.id(b))).collect();
+                                    s_imports.push(format!("mkMU {} [{}] [{}]", lay, body.join("; "), exs.join("; ")));
+                                }
+                                None => { if std::env::var("HX_DEBUG").is_ok() { eprintln!("new fns: {:?}", live_functions(&vm).into_iter().map(|(i, _, n)| (i, n, function_at(&vm, i).map(|f| f.nested_functions.iter().map(|x| x.name.clone()).collect::<Vec<_>>()))).collect::<Vec<_>>()); }
+                                          sx.fail("the module's top-level function was not found".into()) }
+                            }
+                        }
+                    }
+                    let mut s_body: Vec<String> = Vec::new();
+                    let mut s_ltop = "[]".to_string();
                     if *expect != Expect::CompileError {
-                        // the unit's top-level function: the one unnamed function object that is new
-                        let cands: Vec<(usize, usize)> = live_functions(&vm).into_iter().filter(|(i, a, n)| n.is_none() && !seen_tops.contains(&(*i, *a))).map(|(i, a, _)| (i, a)).collect();
-                        for c in &cands { seen_tops.insert(*c); }
-                        // an input with `needs` also allocates the top-level function of every module it loads; the input's
-                        // own unit is allocated last
-                        let has_needs = stmts.iter().any(|s| matches!(s, Stmt::Needs { .. }));
-                        let cands: Vec<(usize, usize)> = if has_needs && cands.len() > 1 { vec![*cands.iter().max().unwrap()] } else { cands };
+                        // the unit's top-level function: the one unnamed function object that is left
+                        let cands = tops;
                         if cands.len() == 1 {
-                            let top = function_at(&vm, cands[0].0).unwrap();
+                            let top = cands[0].clone();
                             let ltop = lay_of(&top);
+                            s_ltop = sx.layout(&ltop, &mut names, &mut problems);
                             let mut unit_lay: HashMap<String, Lay> = HashMap::new();
                             for n in &top.nested_functions { if let Some(nm) = &n.name { unit_lay.insert(nm.clone(), lay_of(n)); } }
                             let idx_in = |l: &Lay, n: &str| -> Option<usize> { l.names.iter().position(|x| x == n) };
@@ -535,6 +673,27 @@ mod imp {
                             for st in stmts {
                                 if failed { break; }
                                 let mut top_idx = |n: &str, problems: &mut Vec<String>| -> usize { match idx_in(&ltop, n) { Some(i) => i, None => { problems.push(format!("{} not in the unit's layout", n)); 9999 } } };
+                                match st {
+                                    Stmt::Let { name, val, .. } => s_body.push(format!("ISet {}%N (VInt {})", names.id(name), zc(code_of_val(val)))),
+                                    Stmt::SetLit { name, val } => s_body.push(format!("ISet {}%N (VInt {})", names.id(name), zc(*val))),
+                                    Stmt::AddTo { name, k } => s_body.push(format!("IAdd {}%N {}", names.id(name), zc(*k))),
+                                    Stmt::Def { name, def } => match unit_lay.get(name) {
+                                        Some(l) => { let ls = sx.layout(l, &mut names, &mut problems); let (ar, b) = fn_body(name, def, &mut names); let fid = sx.add_fn(ls, ar, b);
+                                                     s_body.push(format!("IDef {}%N {}%N", names.id(name), fid)); }
+                                        None => sx.fail(format!("no nested function {}", name)),
+                                    },
+                                    Stmt::PrintVar { name } => s_body.push(format!("IPrint {}%N 0", names.id(name))),
+                                    Stmt::PrintLit { text } => s_body.push(format!("IOut {}", zc(line_code(text)))),
+                                    Stmt::Needs { .. } => {}
+                                    Stmt::PrintExpr { value, global, is_fn, .. } => match global {
+                                        Some(gn) if *is_fn => { s_body.push(format!("ICall (CGlobal {}%N) 1%N None", names.id(gn))); s_body.push(format!("IOut {}", zc(*value))); }
+                                        Some(gn) if ltop.names.iter().any(|x| x == gn) => s_body.push(format!("IPrint {}%N 0", names.id(gn))),
+                                        _ => s_body.push(format!("IOut {}", zc(*value))),
+                                    },
+                                    Stmt::Raw { .. } => s_body.push("IFail".into()),
+                                    Stmt::PrintApply { a, f, .. } => s_body.push(format!("ICall (CGlobal {}%N) 2%N (Some {}%N)", names.id(a), names.id(f))),
+                                    Stmt::PrintCall { f, .. } => s_body.push(format!("ICall (CGlobal {}%N) 1%N None", names.id(f))),
+                                }
                                 match st {
                                     Stmt::Let { name, val, .. } => ops.push(format!("OSetIdx {} {}", top_idx(name, &mut problems), zc(code_of_val(val)))),
                                     Stmt::SetLit { name, val } => ops.push(format!("OSetIdx {} {}", top_idx(name, &mut problems), zc(*val))),
@@ -570,26 +729,31 @@ mod imp {
                             if !failed { ops.push("OReturn".into()); ops.push(format!("OSyncNames {}", coq_layout(&ltop, &mut names))); }
                         } else if class3(&r.class) != "compile-error" {
                             problems.push(format!("expected one new top-level function, found {}", cands.len()));
-                        }
+                        } else { sx.fail("the input was rejected".into()); }
                     }
+                    sx.steps.push(format!("SInput [{}] {} {} [{}] [] []", s_imports.join("; "), *expect != Expect::CompileError, s_ltop, s_body.join("; ")));
                 }
-                Step::Host { f, arg, cached } => {
+                Step::Host { f, arg, cached, extra } => {
+                    sx.steps.push(format!("SHost {}%N {}%N VNull", names.id(f), if *extra { 2 } else { 1 }));
+                    if *extra { *kinds.entry("host-call-wrong-arity").or_insert(0) += 1; }
                     *kinds.entry(if g.o.fns.get(f).map(|d| g.fails(d)).unwrap_or(false) { "host-call-failing" } else if g.o.fns.contains_key(f) { "host-call-ok" } else { "host-call-undefined" }).or_insert(0) += 1;
                     srcs.push(format!("@{} {} {}\n", if *cached { "cached" } else { "call" }, f, arg));
                     let def = g.o.fns.get(f).cloned();
                     // entry condition of a host call: an empty frame stack.  When it does not hold the step is still run and
                     // compared with the reference semantics, but it is not given to the model and the session ends there
                     stale_entry = vm.verif_frames_len() > 0;
-                    r = host_call(&mut vm, f, *arg, *cached);
-                    o = g.o.host(f, *arg);
-                    if let Some(kmul) = g.o.imported.get(f).copied() {
+                    r = host_call_n(&mut vm, f, *arg, *cached, *extra);
+                    o = if *extra { OStep { class: "runtime-error", output: String::new(), value: String::new() } } else { g.o.host(f, *arg) };
+                    if *extra {
+                        // rejected by the arity check before anything is prepared or pushed: no model operations
+                    } else if let Some(kmul) = g.o.imported.get(f).copied() {
                         // a function of an imported module: its layout is read from the function object the name denotes
                         *kinds.entry("host-call-imported").or_insert(0) += 1;
                         let lay = vm.get_global(f).and_then(|v| v.as_ptr()).and_then(|p| function_at(&vm, p)).map(|fun| lay_of(&fun));
                         if let Some(l) = lay { ops.push(format!("OHostCall {} {}", coq_layout(&l, &mut names), cached)); ops.push("OReturn".into()); }
                         ops.push(format!("OPrintConst {}", zc(arg * kmul)));
                     }
-                    if def.is_some() {
+                    if def.is_some() && !*extra {
                         let fns_now = { let mut m = g.o.fns.clone(); if let Some(d) = def.clone() { m.insert(f.clone(), d); } m };
                         let (o2, _f2) = emit_call(f, *arg, 0, &fns_now, &fn_lay, &mut names, &mut problems, Some(*cached));
                         ops.extend(o2);
@@ -599,6 +763,11 @@ mod imp {
             // observations: printed values (+ the host call's result), then the by-name map and the frame depth
             let mut ob: Vec<i64> = obs_of_output(&r.output);
             if matches!(step, Step::Host { .. }) && r.class == "ok" { ob.push(r.value.parse::<i64>().unwrap_or(999_999_997)); }
+            {
+                let mut codes: Vec<i64> = r.output.lines().map(|l| line_code(l.trim_end())).collect();
+                if let Step::Host { f, .. } = &step { if r.class == "ok" && !g.o.imported.contains_key(f) { codes.push(line_code(&r.value)); } }
+                sx.expect.push(format!("([{}], {})", codes.iter().map(|x| zc(*x)).collect::<Vec<_>>().join("; "), if r.class == "ok" { "SOk" } else { "SErr" }));
+            }
             let mut vars: Vec<String> = g.o.vars.keys().cloned().collect();
             vars.sort();
             for v in &vars { ops.push(format!("OReadMap {}", names.id(v))); ob.push(read_map(&vm, v)); }
@@ -615,7 +784,8 @@ mod imp {
         let _ = std::fs::remove_dir_all(&dir);
         let mut ks: Vec<String> = kinds.iter().map(|(k, v)| format!("{}={}", k, v)).collect();
         ks.sort();
-        CaseOut { query: format!("[{}]", q_steps.join("; ")), observed: format!("[{}]", obs_steps.join("; ")), real_steps: real_steps.join(" ;; "),
+        CaseOut { s_code: format!("[{}]", sx.code.join("; ")), s_steps: format!("[{}]", sx.steps.join("; ")), s_expect: format!("[{}]", sx.expect.join("; ")), s_ok: sx.ok, s_why: sx.why.clone(),
+                  query: format!("[{}]", q_steps.join("; ")), observed: format!("[{}]", obs_steps.join("; ")), real_steps: real_steps.join(" ;; "),
                   oracle_steps: oracle_steps.join(" ;; "), source: srcs.join("=====\n"), problems, kinds: ks.join(","), stale_entry }
     }
 }
@@ -655,6 +825,7 @@ fn main() {
             let o = if i % 5 == 4 { 0 } else { opt };
             let c = imp::run_case(case_seed, o);
             println!("CASE\t{}\t{}\t{}\t{}\t{}\t{}\t{}\t{}\t{}", case_seed, c.query, c.observed, c.real_steps, c.oracle_steps, esc(&c.source), esc(&c.problems.join(" | ")), c.kinds, c.stale_entry as u8);
+            println!("SESS\t{}\t{}\t{}\t{}\t{}\t{}", case_seed, c.s_ok as u8, c.s_code, c.s_steps, c.s_expect, esc(&c.s_why));
         }
     }).unwrap();
     handle.join().unwrap();
